@@ -250,7 +250,7 @@ def r7_registration_order_is_never_resorted_unstably(ctx):
                 a0 = (t.get('aty') or [''])[0]
                 if m in UNSTABLE_ORDER and 'components::component::Component>' in a0 and ('processing_pipeline' in b.nid or 'components::db' in b.nid):
                     bad.append((b, bb, t, m))
-    ctx.floor('C05.R7', 'sort / select calls seen in pavexc (positive control)', seen_sorts, 5)
+    ctx.floor('C05.R7', 'sort / select calls seen in pavexc (positive control)', seen_sorts, 1)
     for b, bb, t, m in bad:
         ctx.ob('C05.R7', 'unstable-sort-of-component-ids|%s' % b.nid.replace(PX, '').replace('pavexc::', ''), False, b.loc(bb, t),
                '%s on %s: equal elements (middlewares of the same kind in one stage) may come out in any order' % (m, (t.get('aty') or [''])[0][:80]))
